@@ -457,9 +457,10 @@ Proof.
     + cbn [firstn]. cbn [skipn] in F.
       assert (E : forall Q, Forall (is_flag PArgs) Q ->
                   zmerge (map (option_map AStr) (canonA Q)) [] = map Some (map to_aval Q)).
-      { clear. induction Q as [|[f w] Q IH]; intros H; [reflexivity|]. inversion H; subst.
-        unfold is_flag in H2. cbn in H2. subst f.
-        specialize (IH H3). cbn in *. destruct (map (option_map AStr) (canonA Q)); rewrite <- IH; reflexivity. }
+      { clear. intros Q H. replace (zmerge (map (option_map AStr) (canonA Q)) [])
+          with (map (option_map AStr) (canonA Q)) by (destruct (map (option_map AStr) (canonA Q)); reflexivity).
+        induction Q as [|[f w] Q IH]; [reflexivity|]. inversion H; subst.
+        unfold is_flag in H2. cbn in H2. subst f. cbn. f_equal. now apply IH. }
       apply E, F.
     + cbn [List.length] in L. cbn [skipn] in F. specialize (IH k (le_S_n _ _ L) F).
       destruct f; cbn; rewrite <- IH; reflexivity.
@@ -475,7 +476,9 @@ Proof.
       assert (E : forall Q, Forall (is_flag PJSONArgs) Q ->
                   zmerge [] (canonJ Q) = map Some (map to_aval Q)).
       { clear. induction Q as [|[f w] Q IH]; intros H; [reflexivity|]. inversion H; subst.
-        unfold is_flag in H2. cbn in H2. subst f. specialize (IH H3). cbn in *. now rewrite IH. }
+        unfold is_flag in H2. cbn in H2. subst f. specialize (IH H3).
+        change (zmerge [] (canonJ ((PJSONArgs, w) :: Q))) with (Some (AJson w) :: zmerge [] (canonJ Q)).
+        rewrite IH. reflexivity. }
       apply E, F.
     + cbn [List.length] in L. cbn [skipn] in F. specialize (IH k (le_S_n _ _ L) F).
       destruct f; cbn; rewrite <- IH; reflexivity.
